@@ -12,7 +12,7 @@ Arguments CSimple {A}. Arguments CFresnel {A}. Arguments BLambert {A}. Arguments
 Arguments SObject {A}. Arguments SStandard {A}. Arguments SImage {A}. Arguments Field {A}. Arguments WL {A}.
 Arguments SysAp {A}. Arguments Pickup {A}. Arguments MRHSolve {A}. Arguments PIgnore {A}. Arguments PState {A}.
 Arguments LMat {A}. Arguments LPol {A}.
-Arguments ESetRadius {A}. Arguments ESetConic {A}. Arguments ESetIndex {A}. Arguments ESetCoeff {A}. Arguments ESetPos {A}. Arguments ESetFlat {A}.
+Arguments ESetRadius {A}. Arguments ESetConic {A}. Arguments ESetIndex {A}. Arguments ESetCoeff {A}. Arguments ESetPos {A}. Arguments ESetFlat {A}. Arguments ESetPlaneConic {A}.
 Arguments ESetApertureValue {A}. Arguments ESetPhysAperture {A}. Arguments EAddPickup {A}. Arguments EAddSolve {A}.
 
 Definition fJ := json float (live float).
